@@ -3,6 +3,7 @@
   host bounds, and where the components come from.
 -/
 import NngModel.Model.Url
+import NngModel.Generated.C19
 namespace Nng.UrlProofs
 open Nng Nng.Url
 
